@@ -11,6 +11,8 @@ package main
 //                                     it re-emits ids of the current millisecond -> ok
 //   floor rel <d>                     SetFloor(floor.Load() + d)               -> `<floor> ok|err <floorAfter>`
 //   floor gen <d>                     SetFloor(Generate() + d)                 -> `<floor> ok|err <floorAfter>`
+//   floor abs <v>                     SetFloor(v), any uint64                  -> `<floor> ok|err <floorAfter>`
+//   floor genmax <d>                  SetFloor((Generate() | 0x3fffff) + d ms) -> `<floor> ok|err <floorAfter>`
 //   conc <G> <N> <S> <R> <seed>       G goroutines x N Next(), S floor setters, R rewinders, all concurrent
 //                                     -> events `N:<g>:<start>:<end>:<id>` / `F:<g>:<start>:<end>:<floor>:<ok|err>`
 //                                        (start/end = ticks of one global atomic counter), then `E:<floorAfter>`
@@ -38,6 +40,20 @@ func genC30(g *Gen) {
 		g.Op("new", "%d", []int{0, 1, 7, 1023}[r.Intn(4)])
 		nops := r.Range(20, 60)
 		for i := 0; i < nops; i++ {
+			switch r.Pick(40, 25, 12, 12, 3, 5, 4) {
+			case 5: // restored maxima with the top bit set (negative as int64) and other extremes
+				v := []uint64{1 << 63, 1<<63 | 12345, ^uint64(0) - 1, ^uint64(0), 1<<63 - 1, 1<<63 + 1<<62, 1 << 62}[r.Intn(7)]
+				g.Count("floor-abs:>=2^62")
+				g.Op("floor", "abs %d", v)
+				g.Op("next", "")
+				continue
+			case 6: // same millisecond as the clock, maximal node/step bits
+				d := []int64{0, 0, 0, -1, 1}[r.Intn(5)]
+				g.Count(fmt.Sprintf("floor-genmax:%+d-ms", d))
+				g.Op("floor", "genmax %d", d)
+				g.Op("next", "")
+				continue
+			}
 			switch r.Pick(40, 25, 12, 12, 3) {
 			case 0:
 				g.Op("next", "")
@@ -138,12 +154,23 @@ func (x *c30Runner) Step(op string) string {
 		if len(f) != 3 {
 			return "bad-op"
 		}
-		d, err := strconv.ParseInt(f[2], 10, 64)
+		var d int64
+		var abs uint64
+		var err error
+		if f[1] == "abs" {
+			abs, err = strconv.ParseUint(f[2], 10, 64)
+		} else {
+			d, err = strconv.ParseInt(f[2], 10, 64)
+		}
 		if err != nil {
 			return "bad-op"
 		}
 		var fl uint64
 		switch f[1] {
+		case "abs": // an absolute restored maximum (top-bit-set values included)
+			fl = abs
+		case "genmax": // current millisecond, node and step bits all ones (+ d milliseconds)
+			fl = c30add(x.ids.Generate()|(1<<22-1), d<<22)
 		case "rel":
 			fl = c30add(x.ids.Floor(), d)
 		case "gen":
